@@ -24,8 +24,25 @@
                      wait; a report nobody waits for is forgotten, never kept for a later call
      hcase_violation the property predicate evaluated on every observation of the differential
                      stream "handle" (model/InputCheck.v); model_obs: the observation the model
-                     predicts *)
-From Vx Require Import base.Prelude gen.GenInput model.Parser model.Mouse model.Input model.InputCheck proofs.InputProofs.
+                     predicts
+     cq / cq_answer / krun   (model/InputColour.v) the CONTENT side of the colour queries: the calls
+                     QueryColor c, QueryForeground, QueryBackground; what a caller makes of the payload
+                     it receives (fmt.Sscanf with the text that names what was asked, "4;<index>;" /
+                     "10;" / "11;", then rgb:%x/%x/%x; Color(0) when the scan fails); calls interleaved
+                     with delivered sequences (a call takes the payload parked in its 1-slot reply
+                     channel or waits for the next one offered); the trace = the steps with the returns
+                     of the calls (KRet) where they happen
+     report_colour / strict_report   the same from the terminal's side, independent of Sscanf: a
+                     payload is a report for a query when it begins with the text naming what was
+                     asked followed by rgb:, its '/'-separated fields are hexadecimal numerals of which
+                     the low byte counts; the strict form has exactly three fields of 1..4 digits
+     answers_ok / fresh_ok / ccase_violation   the property predicate of the differential stream
+                     "colour": every colour handed to a caller is Color(0) or the colour of a report,
+                     delivered before, that names what the caller asked for; a call that meets no
+                     leftovers returns at the first report on its channel, with exactly its colour
+                     when the report is strict *)
+From Vx Require Import base.Prelude gen.GenInput model.Parser model.Mouse model.Input model.InputCheck proofs.InputProofs
+  model.InputColour proofs.InputColourProofs.
 
 (* Every sequence the parser can deliver is well formed (no empty CSI parameter), for every
    byte stream and every segmentation of it by silences. *)
@@ -281,6 +298,62 @@ Theorem C03_sgr_bytes_become_the_event : forall dec b64 s b col row sh al ct mo 
 Proof. exact sgr_bytes_event. Qed.
 Print Assumptions C03_sgr_bytes_become_the_event.
 
+(* ---------- the content of the colour replies (QueryColor / QueryForeground / QueryBackground) ----------
+   "Replies ... update exactly the answer they report": the requester half of the chColor / chFg /
+   chBg hand-off.  (The hand-off itself, offer / drop when the slot is full, is C03_answer_colour
+   and C03_reply_updates_only_its_own above.) *)
+
+(* Whatever payload a caller receives: if it makes a colour of it at all, the payload is a report
+   (terminal-side reading, independent of Sscanf) that begins with the text naming what THIS caller
+   asked for, and the colour is the one the report states. *)
+Theorem C03_colour_scan_accepts_only_reports_for_what_was_asked : forall q p,
+  cq_answer q p <> 0 -> report_colour (cq_head q) p = Some (cq_answer q p).
+Proof. exact answer_is_report. Qed.
+Print Assumptions C03_colour_scan_accepts_only_reports_for_what_was_asked.
+
+(* A report for palette entry i is never taken as the answer to a query for another entry j
+   (unsolicited, repeated or stale reports parked in chColor included): Color(0), "unknown". *)
+Theorem C03_colour_report_for_another_entry_is_unknown : forall i j rest,
+  0 <= i < 256 -> 0 <= j < 256 -> i <> j ->
+  cq_answer (QColor (index_colour j)) ([52; 59] ++ dec_u8 i ++ [59] ++ rest) = 0.
+Proof. exact other_entry_unknown. Qed.
+Print Assumptions C03_colour_report_for_another_entry_is_unknown.
+
+(* For EVERY state, every interleaving of calls with delivered sequences (any payloads: matching,
+   for another entry, malformed, duplicated, stale) and every set of callers already blocked: each
+   colour returned to a caller is Color(0), or the colour of a report that names what that caller
+   asked for and that was delivered before the return (or lay in a reply channel at the start); an
+   RGB colour passed to QueryColor comes back unchanged.  [known seen v]: v was delivered (or
+   parked at the start), or no caller makes a colour of it. *)
+Theorem C03_colour_answers_come_from_reports_for_the_asked_entry : forall dec b64 l s w seen,
+  Forall blocking w -> Forall (known seen) (parked s) ->
+  answers_ok seen (fst (fst (krun dec b64 s w l))) = true.
+Proof. intros dec b64 l s w seen. exact (krun_answers_ok dec b64 l s w seen). Qed.
+Print Assumptions C03_colour_answers_come_from_reports_for_the_asked_entry.
+
+(* The answer half: the application reads its queue, nothing is parked in the reply channel, the
+   call passes its guards (capability known; an indexed colour for QueryColor) and the terminal
+   then sends the strict report for what was asked: the call returns exactly the reported colour
+   and the channel is empty again. *)
+Theorem C03_colour_strict_reply_answers_the_waiting_call : forall dec b64 s q p v,
+  q_stalled s = None -> q_get q s = None -> cq_pre (vcaps s) q = None ->
+  strict_report (cq_head q) (gostring p) = Some v ->
+  exists fin, krun dec b64 s [] [KCall q; KItem (IOsc p)] = ([KCall q; KItem (IOsc p); KRet q v], 0, Some fin)
+              /\ q_get q fin = None.
+Proof. exact strict_reply_answers. Qed.
+Print Assumptions C03_colour_strict_reply_answers_the_waiting_call.
+
+(* The property predicate of the differential stream "colour" (neither crash nor wedge on
+   deliverable sequences; every answer is Color(0) or comes from a report, delivered before, for
+   what was asked; a call that meets no leftovers is answered by the first report on its channel,
+   exactly when that report is strict) holds on the observation the MODEL predicts, for every case
+   input without any hypothesis: no mismatch implies no violation, and the predicate raises no
+   false alarm on code the model describes. *)
+Theorem C03_colour_predicate_sound : forall bits sn0 steps obs,
+  ccase_violation ((bits, sn0), steps, ccase_obs (ccase_model ((bits, sn0), steps, obs))) = false.
+Proof. exact colour_predicate_sound. Qed.
+Print Assumptions C03_colour_predicate_sound.
+
 (* ---------- non-vacuity ---------- *)
 (* ESC [ < 20 ; 10 ; 5 M  is Shift+Ctrl+left press at column 9, row 4 *)
 Example C03_example_sgr_bytes :
@@ -380,3 +453,26 @@ Example C03_example_clipboard :
   exists s', run_steps ex_dec ex_b64 vx0 ex_clip_sched =
     Ok s' [Ev (EKey (mkIKey [97] 97 0 0 0 0)); ToClip [110; 101; 33]; ToClip [51; 114; 33]].
 Proof. split; [vm_compute; reflexivity|]. split; [vm_compute; reflexivity|]. eexists. vm_compute. reflexivity. Qed.
+
+(* the colour hand-off on a concrete schedule (OSC 4 known): a stray report for entry 3, a call
+   for entry 5 (takes the parked report: it names another entry, so "unknown"), the terminal's
+   reply for entry 5 (nobody waits: parked), a second call for entry 5 (answered by that report),
+   then a call answered directly by a strict reply in capitals; never entry 3's colour for entry 5.
+   The hypotheses of C03_colour_strict_reply_answers_the_waiting_call are met by the last call. *)
+Definition ex_s4 : vxstate := set_caps vx0 (caps_set caps0 COsc4).
+Definition ex_rep3 : list Z := [52; 59; 51; 59; 114; 103; 98; 58; 49; 49; 49; 49; 47; 50; 50; 50; 50; 47; 51; 51; 51; 51].
+Definition ex_rep5 : list Z := [52; 59; 53; 59; 114; 103; 98; 58; 97; 97; 97; 97; 47; 98; 98; 98; 98; 47; 99; 99; 99; 99].
+Definition ex_rep7 : list Z := [52; 59; 55; 59; 114; 103; 98; 58; 70; 70; 47; 48; 47; 49; 50; 51].
+Example C03_example_stale_colour_report :
+  fst (fst (krun ex_dec (fun _ => None) ex_s4 []
+    [KItem (IOsc ex_rep3); KCall (QColor (index_colour 5)); KItem (IOsc ex_rep5);
+     KCall (QColor (index_colour 5)); KCall (QColor (index_colour 7)); KItem (IOsc ex_rep7)])) =
+  [KItem (IOsc ex_rep3); KCall (QColor (index_colour 5)); KRet (QColor (index_colour 5)) 0;
+   KItem (IOsc ex_rep5); KCall (QColor (index_colour 5));
+   KRet (QColor (index_colour 5)) (rgb_colour 170 187 204);
+   KCall (QColor (index_colour 7)); KItem (IOsc ex_rep7); KRet (QColor (index_colour 7)) (rgb_colour 255 0 35)] /\
+  report_colour (cq_head (QColor (index_colour 5))) ex_rep3 = None /\
+  report_colour (cq_head (QColor (index_colour 3))) ex_rep3 = Some (rgb_colour 17 34 51) /\
+  strict_report (cq_head (QColor (index_colour 7))) (gostring ex_rep7) = Some (rgb_colour 255 0 35) /\
+  cq_pre (vcaps ex_s4) (QColor (index_colour 7)) = None.
+Proof. vm_compute. repeat split; reflexivity. Qed.
